@@ -103,7 +103,7 @@ var httpWorkers sync.Once
 func httpSetup() {
 	httpWorkers.Do(func() {
 		influx.StartUnmarshalWorkers()
-		for _, lb := range [][2]int{{700, 256}, {1500, 512}, {4000, 1024}, {0, 300}} {
+		for _, lb := range [][2]int{{700, 256}, {1500, 512}, {2500, 1024}, {0, 300}} {
 			httpEnvs = append(httpEnvs, newHTTPEnv(lb[0], lb[1]))
 		}
 	})
@@ -265,7 +265,7 @@ func caseHTTP(r *gen.Rand, idx int) {
 	case x < 14:
 		want = r.Range(30, ref)
 	default:
-		want = r.Range(ref+4, 2*ref+200)
+		want = r.Range(ref+4, ref+ref/2+100)
 	}
 	body, lines := httpBody(r, want, r.Chance(1, 7))
 	pr := httpPrecs[r.Intn(len(httpPrecs))]
